@@ -30,7 +30,7 @@ P = {
  'C02': dict(families=[('core', 120, 2000, 120), ('entry', 60, 1000, 120), ('churn', 6, 60, 6000), ('big', 1, 2, 20000)], big_thorough=120000, aspects='SHA', profiles=['release'],
              theorems=['C02_insert_bounded', 'C02_lookup_constant', 'C02_removal_constant', 'C02_entry_step_bounded', 'C02_entry_chain_bounded', 'C02_extend_is_reserve_then_loop', 'C02_extend_loop_bounded']),
  'C03': dict(families=[('core', 150, 2500, 120), ('iter', 60, 1000, 120), ('entry', 60, 1000, 120), ('big', 1, 2, 12000)], big_thorough=120000, aspects='SA', profiles=['release'],
-             theorems=['C03_step', 'C03_two_tables', 'C03_finishes_within_ceil_L_over_R']),
+             theorems=['C03_step', 'C03_entry_insert_step', 'C03_two_tables', 'C03_finishes_within_ceil_L_over_R']),
  'C04': dict(families=[('capacity', 150, 2500, 120), ('core', 100, 1500, 120), ('clone', 40, 600, 120), ('entry', 40, 600, 120)], aspects='RSA', profiles=['debug', 'release'],
              theorems=['C04_capacity_ge_len', 'C04_headroom_invariant', 'C04_full_implies_no_resize', 'C04_sizing_keeps_headroom', 'C04_fill']),
  'C08': dict(families=[('iter', 150, 2500, 120), ('mixed', 80, 1200, 120), ('set', 40, 600, 120)], aspects='RSD', profiles=['debug', 'release'],
